@@ -190,6 +190,7 @@ pub fn bitfield(args: TokenStream, input: TokenStream) -> TokenStream {
         Err(token_stream) => return token_stream.into_compile_error().into(),
     };
     let accessors = codegen::generate(&field_definitions, base_data_size, &internal_base_data_type);
+    let custom_type_size_checks = codegen::make_custom_type_size_checks(&field_definitions);
 
     let (default_constructor, default_trait) = if let Some(default_value) =
         &bitfield_attrs.default_val
@@ -321,6 +322,7 @@ pub fn bitfield(args: TokenStream, input: TokenStream) -> TokenStream {
 
             #( #accessors )*
         }
+        #( #custom_type_size_checks )*
         #default_trait
         #debug_trait
         #( #new_with_builder_chain )*
